@@ -714,6 +714,10 @@ protected:
     {
         size_type   i = 0;
 
+        // True if the section was closed here, to write a character
+        // reference, rather than by the writer.
+        bool    closedForCharRef = false;
+
         while(i < length)
         {
             // If "]]>", which would close the CDATA appears in
@@ -724,15 +728,15 @@ protected:
             const XalanDOMChar  theChar = chars[i];
 
             if (theChar == XalanUnicode::charRightSquareBracket &&
-                i - length > 2 &&
+                length - i > 2 &&
                 XalanUnicode::charRightSquareBracket == chars[i + 1] &&
                 XalanUnicode::charGreaterThanSign == chars[i + 2])
             {
                 if (outsideCDATA == true)
                 {
                     m_writer.write(
-                        m_constants.s_cdataCloseString,
-                        m_constants.s_cdataCloseStringLength);
+                        m_constants.s_cdataOpenString,
+                        m_constants.s_cdataOpenStringLength);
                 }
 
                 m_writer.write(value_type(XalanUnicode::charRightSquareBracket));
@@ -750,6 +754,8 @@ protected:
 
                 outsideCDATA = false;
 
+                closedForCharRef = false;
+
                 i += 2;
             }
             else
@@ -758,27 +764,53 @@ protected:
                 {
                     outputNewline();
                 }
-                else if(m_charPredicate.isCharRefForbidden(theChar))
+                else if(m_charPredicate.isForbidden(theChar))
                 {
                      throwInvalidXMLCharacterException(
                             theChar,
                             m_version,
                             getMemoryManager());
                 }
+                else if(XalanUnicode::charCR == theChar ||
+                        m_charPredicate.isCharRefForbidden(theChar) ||
+                        (XMLVersion == XML_VERSION_1_1 &&
+                         (XalanUnicode::charNEL == theChar ||
+                          XalanUnicode::charLSEP == theChar)))
+                {
+                    // A parser would normalize the character, or it
+                    // cannot appear literally, so it has to be written
+                    // as a character reference, outside of the section.
+                    if (outsideCDATA == false)
+                    {
+                        m_writer.write(
+                            m_constants.s_cdataCloseString,
+                            m_constants.s_cdataCloseStringLength);
+
+                        outsideCDATA = true;
+
+                        closedForCharRef = true;
+                    }
+
+                    writeNumericCharacterReference(theChar);
+                }
                 else
                 {
+                    if (outsideCDATA == true && closedForCharRef == true)
+                    {
+                        m_writer.write(
+                            m_constants.s_cdataOpenString,
+                            m_constants.s_cdataOpenStringLength);
+
+                        outsideCDATA = false;
+
+                        closedForCharRef = false;
+                    }
+
                     i = m_writer.writeCDATAChar(chars, i, length, outsideCDATA);
                 }
             }
 
             ++i;
-        }
-
-        if(outsideCDATA == true)
-        {
-            m_writer.write(
-                m_constants.s_cdataOpenString,
-                m_constants.s_cdataOpenStringLength);
         }
     }
 
